@@ -180,6 +180,8 @@ def mnemonics_of(lines):
 def label_value(desc, obs):
     """value of the label L in the label cases, from the listing addresses of the implementation's own output"""
     k = desc["stmt"]
+    if desc["spelling"] == "label-expr":
+        return desc["value"]
     if desc["spelling"] == "label-before":
         return obs[4][k - 1][0]
     return obs[4][k + 1][0]
@@ -357,6 +359,10 @@ def expr_value(desc, obs):
             if symd.get(t[1]) is None:
                 return "nolabel"
             vals.append(symd[t[1]])
+        elif t[0] == "equl":               # an EQU symbol defined by label arithmetic: (kind, name, label, constant)
+            if symd.get(t[2]) is None:
+                return "nolabel"
+            vals.append(symd[t[2]] + t[3])
         else:
             vals.append(t[-1])
     if len(vals) == 1:
